@@ -75,7 +75,15 @@ async def run(
         processes.append(process)
 
     # Wait for all processes to be done
-    await asyncio.gather(*processes)
+    try:
+        await asyncio.gather(*processes)
+    except BaseException:
+        # If one simulator fails, the other simulators' processes must
+        # not be left pending (or even continue stepping).
+        for process in processes:
+            process.cancel()
+        await asyncio.gather(*processes, return_exceptions=True)
+        raise
 
 
 async def sim_process(
@@ -158,17 +166,21 @@ async def next_step_settled(sim: SimRunner, world: World) -> bool:
             await_time = TieredTime(world.until) + sim.from_world_time
             if sim.next_steps and sim.next_steps[0] < await_time:
                 await_time = sim.next_steps[0]
-            _, pending = await asyncio.wait(
-                [
-                    asyncio.create_task(sim.progress.has_reached(await_time)),
-                    asyncio.create_task(sim.newer_step.wait()),
-                ],
-                return_when="FIRST_COMPLETED",
-                timeout=world.rt_factor,
-            )
+            waiters = [
+                asyncio.create_task(sim.progress.has_reached(await_time)),
+                asyncio.create_task(sim.newer_step.wait()),
+            ]
+            try:
+                await asyncio.wait(
+                    waiters,
+                    return_when="FIRST_COMPLETED",
+                    timeout=world.rt_factor,
+                )
+            finally:
+                # (also if we are cancelled while waiting)
+                for task in waiters:
+                    task.cancel()
             sim.newer_step.clear()
-            for task in pending:
-                task.cancel()
             if world.rt_factor:
                 advance_progress(sim, world)
     return False
